@@ -87,7 +87,7 @@ PINNED = {
     'PrivKey.__bytearray__': '32da223c6d96',
     'String2Key._experimental_bytearray': '8cdd6a4d556b',   # 05bf06b: serial length octet whenever the extension is 2 (s2k_emit_gnu)
     'String2Key._experimental_parse': '5b6bfe665624',
-    'PGPKey.add_subkey': 'ba2057f19970',         # OAddSub: the subkey is attached before self.bind may refuse
+    'PGPKey.add_subkey': '85b34b9f5c87',         # 163b208: a refused self.bind undoes the attachment (OAddSub on a locked primary: state unchanged)
 }
 
 
@@ -347,6 +347,7 @@ class Hist:
                     except Exception as ex:
                         ctx.fail(self.suite, 'harness: could not generate a subkey: %r' % ex, case)
                         return False
+                    before = outcome(lambda: (bytes(key), flags_of(key), bytes(sub), bool(sub.is_primary), sub.parent is None))
                     try:
                         key.add_subkey(sub, usage=usage)
                         obs = 'done'
@@ -354,7 +355,16 @@ class Hist:
                         obs = 'refused' if 'is_unlocked' in str(ex) else 'failed'
                     except Exception:
                         obs = 'failed'
-                    if len(pkts(key)) == len(orig) + 1:          # attached (PGPy attaches before the binding signature is made)
+                    if obs != 'done':
+                        # repair 163b208: a refused add_subkey leaves BOTH keys as they were (no unbound subkey attached, the
+                        # candidate still a primary key without parent)
+                        after = outcome(lambda: (bytes(key), flags_of(key), bytes(sub), bool(sub.is_primary), sub.parent is None))
+                        if after != before:
+                            ctx.fail(self.suite, 'an add_subkey that was refused (%s) changed the key or the candidate subkey' % obs,
+                                     dict(case, step=len(impl), packets_before=before[1][1] if before[0] == 'ok' else None,
+                                          packets_after=after[1][1] if after[0] == 'ok' else None))
+                            ok = False
+                    if len(pkts(key)) == len(orig) + 1:          # attached: the model and the later oracles know its secret integers
                         orig.append(sub_ints)
                         allsecrets.extend(sub_ints)
                     mops.append('A,%s,%s' % (':'.join(hn(v) for v in sub_ints) or '-', hx(sub_chk)))
